@@ -28,6 +28,8 @@ from .c02 import layout_agreement
 PROP = "C01"
 
 SEND_QUALS = {"transport:Transport.send", "transport:SyncTransport.send", "gateway_mqtt:MQTTTransport.send"}
+# modular analysis: these are analysed as roots of their own and treated as opaque calls elsewhere
+MODULAR = SEND_QUALS | {"__init__:Gateway.alert"}
 
 # Suppressions of exactly one (function, exception class) each, with the reason.
 ASSUMPTIONS = [
@@ -51,15 +53,7 @@ ALWAYS_EFFECT = {"cb", "opaque", "spawn", "executor"}
 HEADER = {"node_id", "child_id", "type", "ack", "sub_type"}
 
 
-def rooted(key) -> bool:
-    """Does this value key denote (part of) the gateway's long-lived state?"""
-    if isinstance(key, tuple):
-        if len(key) >= 2 and key[0] == "root" and key[1] in ("GW", "TR", "PR", "TASKS"):
-            return True
-        if key and key[0] == "global":
-            return True
-        return any(rooted(k) for k in key if isinstance(k, tuple))
-    return False
+from ..values import rooted  # noqa: E402
 
 
 def is_effect(e) -> bool:
@@ -141,7 +135,7 @@ def summarise(analysis, it, outs, root, ctxname, check_r3=False, gw=None) -> dic
 def logic_worker(analysis: Analysis, spec) -> dict:
     ctx = analysis.context(*spec)
     it = analysis.new_interp(ctx)
-    it.inline_skip = set(SEND_QUALS)
+    it.inline_skip = set(MODULAR)
     st, gw = analysis.gateway_state(it)
     line = Sym(("root", "line"), "str")
     outs = analysis.run_root(it, "__init__:Gateway.logic", [line], gw, st)
@@ -162,6 +156,9 @@ def aux_worker(analysis: Analysis, spec) -> dict:
         msg = Sym(("root", "message"), "str", nullable=True)
         outs = analysis.run_root(it, m.qual, [msg], tr, st)
         name = m.qual
+    elif root == "alert":
+        outs = analysis.run_root(it, "__init__:Gateway.alert", [Sym(("root", "msg"), ("cls", "message:Message"))], gw, st)
+        name = "__init__:Gateway.alert"
     elif root == "recv":
         tr = Sym(("root", "TR"), ("cls", ctx.transport))
         st.mem[(tr.key(), "a", "gateway")] = gw
@@ -247,6 +244,7 @@ def run(analysis: Analysis, tier: str) -> RuleResult:
     for fam in families:
         for fl in ("sync", "async"):
             aux_specs.append(("send", (versions[-1], fam, fl)))
+            aux_specs.append(("alert", (versions[-1], fam, fl)))
             aux_specs.append(("poll", (versions[-1], fam, fl)))
             if fam == "mqtt":
                 aux_specs.append(("recv", (versions[-1], fam, fl)))
